@@ -216,10 +216,11 @@ const (
 	PubErr
 	PubPanic
 	PubErrAfterAccept // forward to Inner, then report an error ("ack lost")
+	PubErrCanceled    // fail with context.Canceled (plain on odd calls, wrapped on even ones): still a failure
 )
 
 func (f PubFault) String() string {
-	return [...]string{"ok", "publisher-error", "publisher-panic", "publisher-error-after-accept"}[f]
+	return [...]string{"ok", "publisher-error", "publisher-panic", "publisher-error-after-accept", "publisher-error-context-canceled"}[f]
 }
 
 type PubCall struct {
@@ -268,6 +269,13 @@ func (p *ScriptedPublisher) Publish(topic string, msgs ...*message.Message) erro
 	case PubErr:
 		p.R.Fault(c.Fault.String())
 		c.Err = ErrScriptedPublish
+		return c.Err
+	case PubErrCanceled:
+		p.R.Fault(c.Fault.String())
+		c.Err = context.Canceled
+		if c.N%2 == 0 {
+			c.Err = fmt.Errorf("publishing interrupted: %w", context.Canceled)
+		}
 		return c.Err
 	case PubPanic:
 		p.R.Fault(c.Fault.String())
